@@ -178,7 +178,7 @@ Proof. exact single_do_example. Qed.
 
 (* The same statement by exhaustive computation on a finite domain (kept: it is about [query] with no
    hypotheses to discharge): every DAG on <= 3 binary nodes,
-   every CPD whose columns are (p, 1-p) with p in {1/4, 1/2, 3/4} (all combinations; 63 networks on 2 nodes,
+   every CPD whose columns are (p, 1-p) with p in {1/4, 2/3} (all combinations; 20 networks on 2 nodes,
    several thousand on 3), every do-variable and value, every non-empty query set disjoint from the do-variable
    and its parents. *)
 Theorem C13_single_do_parent_adjustment_upto3_grid : forall n bn x xv Y,
@@ -188,7 +188,7 @@ Theorem C13_single_do_parent_adjustment_upto3_grid : forall n bn x xv Y,
 Proof. exact single_do_parent_adjustment_upto3_grid. Qed.
 Print Assumptions C13_single_do_parent_adjustment_upto3_grid.
 
-Example single_do_domain_nonempty : length (grid_bns 2) = 63%nat /\ length (all_dags 3) = 25%nat.
+Example single_do_domain_nonempty : length (grid_bns 2) = 20%nat /\ length (all_dags 3) = 25%nat.
 Proof. exact grid_nonempty. Qed.
 
 Local Close Scope Qc_scope.
